@@ -263,9 +263,9 @@ func c08ExprOps(c *Cfg, e c08Expr) {
 				tag = "v2-programmatic-right-nested-or-and-chain-flattened"
 				c.Count("expr-v2-right-nested-chain-shape")
 			}
-		} else if merge {
-			tag = "v1-unary-op-merges-with-operand"
-			c.Count("expr-v1-merge-shape")
+		}
+		if merge { // a unary operator followed by an operand it would merge with: no special treatment
+			c.Count("expr-unary-merge-shape")
 		}
 		out, err := c08NodeFmt(e.node)
 		if err != nil {
@@ -494,9 +494,6 @@ func c08ExtClass(e ast.Expr, v2 bool) string {
 		}
 		return true
 	}, nil)
-	if cls == "" && !v2 && hasUnaryMerge(e) {
-		cls = "v1-unary-op-merges-with-operand"
-	}
 	if cls == "" && v2 && hasRightNestedChain(e) {
 		cls = "v2-programmatic-right-nested-or-and-chain-flattened"
 	}
